@@ -32,10 +32,6 @@ impl MmapMut {
     fn flush_async(&self) -> std::io::Result<()> {
         panic!()
     }
-
-    fn copy_from_slice(&self, _: &[u8]) {
-        panic!()
-    }
 }
 
 pub struct Writer {
@@ -43,6 +39,7 @@ pub struct Writer {
     builder: IntegrityOpts,
     mmap: Option<MmapMut>,
     tmpfile: NamedTempFile,
+    written: usize,
 }
 
 impl Writer {
@@ -72,10 +69,17 @@ impl Writer {
             builder: IntegrityOpts::new().algorithm(algo),
             tmpfile,
             mmap,
+            written: 0,
         })
     }
 
-    pub fn close(self) -> Result<Integrity> {
+    pub fn close(mut self) -> Result<Integrity> {
+        finish_mmap(&mut self.mmap, &self.tmpfile, self.written).with_context(|| {
+            format!(
+                "Failed to finalize temp file at {}",
+                self.tmpfile.path().display()
+            )
+        })?;
         let sri = self.builder.result();
         let cpath = path::content_path(&self.cache, &sri);
         DirBuilder::new()
@@ -115,12 +119,7 @@ impl Writer {
 impl Write for Writer {
     fn write(&mut self, buf: &[u8]) -> std::io::Result<usize> {
         self.builder.input(buf);
-        if let Some(mmap) = &mut self.mmap {
-            mmap.copy_from_slice(buf);
-            Ok(buf.len())
-        } else {
-            self.tmpfile.write(buf)
-        }
+        write_chunk(&mut self.mmap, &mut self.tmpfile, &mut self.written, buf)
     }
 
     fn flush(&mut self) -> std::io::Result<()> {
@@ -143,6 +142,7 @@ struct Inner {
     builder: IntegrityOpts,
     tmpfile: NamedTempFile,
     mmap: Option<MmapMut>,
+    written: usize,
     buf: Vec<u8>,
     last_op: Option<Operation>,
 }
@@ -177,6 +177,7 @@ impl AsyncWriter {
             cache: cache_path,
             builder: IntegrityOpts::new().algorithm(algo),
             mmap,
+            written: 0,
             tmpfile,
             buf: vec![],
             last_op: None,
@@ -194,8 +195,20 @@ impl AsyncWriter {
                 match state {
                     State::Idle(opt) => match opt.take() {
                         None => return Poll::Ready(None),
-                        Some(inner) => {
+                        Some(mut inner) => {
                             let (s, r) = futures::channel::oneshot::channel();
+                            let finished =
+                                finish_mmap(&mut inner.mmap, &inner.tmpfile, inner.written)
+                                    .with_context(|| {
+                                        format!(
+                                            "Failed to finalize temp file at {}",
+                                            inner.tmpfile.path().display()
+                                        )
+                                    });
+                            if let Err(e) = finished {
+                                let _ = s.send(Err(e));
+                                return Poll::Ready(Some(r));
+                            }
                             let tmpfile = inner.tmpfile;
                             let sri = inner.builder.result();
                             let cpath = path::content_path(&inner.cache, &sri);
@@ -307,15 +320,14 @@ impl AsyncWrite for AsyncWriter {
                         // Start the operation asynchronously.
                         *state = State::Busy(crate::async_lib::spawn_blocking(|| {
                             inner.builder.input(&inner.buf);
-                            if let Some(mmap) = &mut inner.mmap {
-                                mmap.copy_from_slice(&inner.buf);
-                                inner.last_op = Some(Operation::Write(Ok(inner.buf.len())));
-                                State::Idle(Some(inner))
-                            } else {
-                                let res = inner.tmpfile.write(&inner.buf);
-                                inner.last_op = Some(Operation::Write(res));
-                                State::Idle(Some(inner))
-                            }
+                            let res = write_chunk(
+                                &mut inner.mmap,
+                                &mut inner.tmpfile,
+                                &mut inner.written,
+                                &inner.buf,
+                            );
+                            inner.last_op = Some(Operation::Write(res));
+                            State::Idle(Some(inner))
                         }));
                     }
                 }
@@ -421,6 +433,69 @@ impl AsyncWriter {
             }
         }
     }
+}
+
+// Writes one chunk at the current offset. The memory map covers exactly the
+// declared size; data that does not fit in it (more bytes than declared) goes
+// through the file instead, so that the size check in `commit` can report it.
+fn write_chunk(
+    mmap: &mut Option<MmapMut>,
+    tmpfile: &mut NamedTempFile,
+    written: &mut usize,
+    buf: &[u8],
+) -> std::io::Result<usize> {
+    if let Some(map) = mmap {
+        let end = *written + buf.len();
+        if end <= map_len(map) {
+            map_slice(map, *written, end).copy_from_slice(buf);
+            *written = end;
+            return Ok(buf.len());
+        }
+        finish_mmap(mmap, tmpfile, *written)?;
+        tmpfile
+            .as_file_mut()
+            .seek(std::io::SeekFrom::Start(*written as u64))?;
+    }
+    let n = tmpfile.write(buf)?;
+    *written += n;
+    Ok(n)
+}
+
+// Releases the memory map, if any, and cuts the preallocated file down to the
+// bytes actually written, so that the file never holds padding.
+fn finish_mmap(
+    mmap: &mut Option<MmapMut>,
+    tmpfile: &NamedTempFile,
+    written: usize,
+) -> std::io::Result<()> {
+    if let Some(map) = mmap.take() {
+        let len = map_len(&map);
+        drop(map);
+        if written < len {
+            tmpfile.as_file().set_len(written as u64)?;
+        }
+    }
+    Ok(())
+}
+
+#[cfg(feature = "mmap")]
+fn map_len(map: &MmapMut) -> usize {
+    map.len()
+}
+
+#[cfg(feature = "mmap")]
+fn map_slice(map: &mut MmapMut, from: usize, to: usize) -> &mut [u8] {
+    &mut map[from..to]
+}
+
+#[cfg(not(feature = "mmap"))]
+fn map_len(_: &MmapMut) -> usize {
+    0
+}
+
+#[cfg(not(feature = "mmap"))]
+fn map_slice(_: &mut MmapMut, _: usize, _: usize) -> &mut [u8] {
+    &mut []
 }
 
 #[cfg(feature = "mmap")]
